@@ -374,11 +374,12 @@ struct LifeHttpHandler : public Http::Handler {
     }
     void onDisconnection(const std::shared_ptr<Tcp::Peer>& peer) override { std::lock_guard<std::mutex> g(g_m); PeerLife& l = g_life[peer->getID()]; l.disc++; l.events += 'D'; l.obj = peer; }
 };
-static const char* BEHAVIOUR[] = {"connect-close", "partial-then-close", "exchange-then-close", "half-close-then-read", "reset", "reset-with-pending-response", "silence-until-idle-timeout", "armed-timeout-answered-before", "keepalive-3-requests-then-close", "exchange-then-silence-until-idle-timeout", "slow-request-keeps-worker-busy", "partial-then-immediate-close-while-worker-busy", "send-and-half-close-at-once-while-worker-busy", "request-a-streamed-response-then-reset", "long-poll-then-leave-before-the-response-time-out", "unread-response-then-silence-past-the-idle-time-out-then-close", "silence-past-the-idle-time-out-then-orderly-close", "slow-request-keeps-worker-busy-past-the-idle-time-out", "reset-with-pending-file-response", "file-response-read-to-the-end", "head-completed-past-the-time-out-asks-for-a-streamed-response", "long-poll-until-the-response-time-out-fires"};
+static const char* BEHAVIOUR[] = {"connect-close", "partial-then-close", "exchange-then-close", "half-close-then-read", "reset", "reset-with-pending-response", "silence-until-idle-timeout", "armed-timeout-answered-before", "keepalive-3-requests-then-close", "exchange-then-silence-until-idle-timeout", "slow-request-keeps-worker-busy", "partial-then-immediate-close-while-worker-busy", "send-and-half-close-at-once-while-worker-busy", "request-a-streamed-response-then-reset", "long-poll-then-leave-before-the-response-time-out", "unread-response-then-silence-past-the-idle-time-out-then-close", "silence-past-the-idle-time-out-then-orderly-close", "slow-request-keeps-worker-busy-past-the-idle-time-out", "reset-with-pending-file-response", "file-response-read-to-the-end", "head-completed-past-the-time-out-asks-for-a-streamed-response", "long-poll-until-the-response-time-out-fires", "slow-request-holds-the-worker-for-600-ms", "joins-a-burst-while-the-worker-is-held"};
 static std::atomic<int> g_foreign_bytes{0};
 static std::atomic<int> g_own_408{0};
 static std::string g_foreign_detail;
 static void client_behaviour(int port, int b, bool http, Rng& r) {
+    if (b == 23) lv::msleep(100 + r.range(0, 150));   // the burst: connects while the worker is held by behaviour 22
     lv::Conn c; if (!c.open_to(port, b == 5 || b == 15 || b == 18 ? 2048 : 0)) return;
     std::string buf;
     auto req = [&](const std::string& path) { return http ? "GET " + path + " HTTP/1.1\r\nHost: x\r\nConnection: keep-alive\r\n\r\n" : "hello " + path + "\n"; };
@@ -425,6 +426,8 @@ static void client_behaviour(int port, int b, bool http, Rng& r) {
         if (!m.complete || m.status != 408) { if (g_foreign_bytes++ == 0) { std::lock_guard<std::mutex> g(g_m); g_foreign_detail = "long poll past its response time-out: " + (m.complete ? "status " + std::to_string(m.status) : "no answer (" + m.error + ")"); } }
         else g_own_408++;
         lv::msleep(r.range(0, 60)); break; }
+    case 22: c.send_all(req("/slow?ms=600")); readReply(); break;
+    case 23: { int w = r.range(0, 3); if (w == 0) { lv::msleep(400); break; } if (w == 1) { c.send_all(req("/x")); lv::msleep(r.range(0, 300)); c.rst_close(); return; } c.send_all(req("/x")); readReply(); } break;   // connects while the only worker is inside a handler: connect-and-leave / reset / exchange
     case 9: c.send_all(req("/x")); readReply(); { bool eof = false; double end = lv::now() + 4.0; std::string t; while (!eof && lv::now() < end) c.read_some(t, 100, 1 << 20, &eof); } break;
     default: for (int k = 0; k < 3; k++) { c.send_all(req("/k" + std::to_string(k))); readReply(); } break;
     }
@@ -442,6 +445,10 @@ static void run_c08(long cases) {
         // whose outcome does not depend on being served in time (a worker that is away that long answers late comers 408 and closes)
         bool stallRound = http && !longTimeouts && r.chance(1, (int)g_opts.num("stall-one-in", 3));
         if (stallRound) workers = 1;
+        // burst rounds: one request holds the only worker for 600 ms while 70-130 clients connect; the worker finds them all in its queue of new
+        // peers when it comes back (more than any batch size one might think of), and each of them is a connection like any other
+        bool burstRound = http && longTimeouts && r.chance(1, 2);
+        if (burstRound) workers = 1;
         { std::lock_guard<std::mutex> g(g_m); g_life.clear(); SpyTransport::all().clear(); }
         std::unique_ptr<Tcp::Listener> listener; std::unique_ptr<Http::Endpoint> ep; int port;
         if (http) {
@@ -465,6 +472,7 @@ static void run_c08(long cases) {
         // descriptors left over from the previous round's endpoint (shut down with a connection still open) are not this round's
         long accepts0, closes0; { lv::Interpose& I = lv::ip(); std::lock_guard<std::mutex> g(I.m); I.owned.clear(); accepts0 = I.accepts; closes0 = I.closesOwned; }
         int nclients = r.range(1, 24);
+        if (burstRound) nclients = r.range(70, 130);
         if (stallRound) nclients = std::max(nclients, 5);   // (the stalling client, two that stay silent past the time-out and then leave, and others)
         set_case(idx, Json().num("i", idx).str("phase", "c08").str("server", http ? "http-endpoint" : "tcp-listener").num("workers", workers).str("behaviours", stallRound ? "(stall round in progress)" : "(round in progress)").done());
         std::vector<int> behaviours;
@@ -476,6 +484,7 @@ static void run_c08(long cases) {
             if (http && r.chance(1, 10)) b = 21;
             if (stallRound) { static const int QUIET[] = {0, 1, 4, 16, 16, 20, 12, 11, 20}; b = k == 0 ? 17 : k <= 2 ? 16 : r.pick(QUIET); }
             if (!stallRound && k == 0 && r.chance(1, 2)) b = 10;
+            if (burstRound) b = k == 0 ? 22 : 23;
             if ((b == 15 || b == 16 || b == 20) && (!http || longTimeouts)) b = 5;
             if (g_opts.num("behaviour", -1) >= 0) b = (int)g_opts.num("behaviour", -1);
             if (!http && (b == 6 || b == 7 || b == 9 || b == 21)) b = r.range(0, 5);
